@@ -41,3 +41,54 @@ def targets_qnames(ctx: Ctx, call: ast.Call, fi: FuncInfo) -> List[str]:
 def need(cond, msg):
     if not cond:
         raise AnalysisError(msg)
+
+
+def term(ctx: Ctx, fi: FuncInfo, src: str) -> str:
+    """Canonical (origin-expanded) text of the expression `src` evaluated in the context of fi."""
+    e = ast.parse(src, mode="eval").body
+    # give the synthetic nodes a parent chain / owner so that type inference treats them as part of fi
+    for n in ast.walk(e):
+        ctx.prog.owner[id(n)] = fi
+    alts = ctx.expand.expand(e, fi)
+    need(len(alts) == 1, "term `%s` in %s has %d expansions %s" % (src, fi.qname, len(alts), alts[:3]))
+    return alts[0]
+
+
+def P(fi: FuncInfo, i: int) -> str:
+    """Canonical text of positional parameter i of fi (0 = self for methods)."""
+    need(i < len(fi.params), "%s has no positional parameter %d" % (fi.qname, i))
+    return "@" + fi.params[i]
+
+
+def trace_worker(ctx: Ctx):
+    """(worker function, {role: param name}) - the function holding the body of the settrace callback, with
+    the parameters that carry CPython's (frame, event, arg) after following pure delegation."""
+    entries = settrace_entries(ctx)
+    need(entries, "no settrace entry point")
+    entry = entries[0][0]
+    params = entry.params
+    off = 1 if entry.cls is not None and not entry.is_static else 0
+    need(len(params) >= off + 3, "trace callback %s does not take (frame, event, arg)" % entry.qname)
+    roles = {"frame": params[off], "event": params[off + 1], "arg": params[off + 2]}
+    f = entry
+    for _ in range(4):
+        # delegation: a single `return <call to repo function>` (possibly inside try) forwarding the roles
+        rets = [n for n in ctx.types.nodes_in(f, ast.Return) if isinstance(n.value, ast.Call)
+                and ctx.types.resolve_call(n.value, f).repo and not ctx.types.resolve_call(n.value, f).ext]
+        others = [c for c in ctx.types.calls_in(f) if not any(c is r.value for r in rets)
+                  and any(g.qname not in ctx.guards.trusted_repo for g in ctx.types.resolve_call(c, f).repo)]
+        if len(rets) != 1 or others:
+            break
+        call = rets[0].value
+        g = ctx.types.resolve_call(call, f).repo[0]
+        bound = ctx.types.bind_args(g, call)
+        new_roles = {}
+        for pname, arg in bound.items():
+            if isinstance(arg, ast.Name):
+                for role, rp in roles.items():
+                    if arg.id == rp:
+                        new_roles[role] = pname
+        if set(new_roles) != {"frame", "event", "arg"}:
+            break
+        f, roles = g, new_roles
+    return f, roles
